@@ -102,6 +102,15 @@ fn hostile_sizes(len: usize) -> Vec<usize> {
             v.push(x);
         }
     }
+    // values that change when truncated to a narrower integer: 2^w, 2^w + small, multiples of 2^w
+    for w in [8u32, 16, 32] {
+        let b = 1usize << w;
+        for x in [b - 1, b, b + 1, b + len, b + len.saturating_sub(1), b + len / 2 + 1, 3 * b, 5 * b + 4] {
+            if !v.contains(&x) {
+                v.push(x);
+            }
+        }
+    }
     v
 }
 
@@ -334,7 +343,7 @@ pub fn run(cfg: &Cfg) -> (&'static str, Report, String, String) {
     (
         "C08",
         rep,
-        format!("lengths 0..={} (u16) / shorter for (), String, all-equal u8; sizes 1..=len+2 plus sizes around usize::MAX, usize::MAX/2 and usize::MAX-len; all front/back masks of count+2 steps (sampled above the per-tier cap); array_chunks N in {{1,2,3,4,5,8}} over u16/()/String; long slices (17..=100 elements) with sizes around 8/16/32 and len-1/len/len+1 under six masks", maxlen),
+        format!("lengths 0..={} (u16) / shorter for (), String, all-equal u8; sizes 1..=len+2 plus sizes around usize::MAX, usize::MAX/2, usize::MAX-len and around 2^8, 2^16, 2^32 (values that change when truncated to a narrower integer); all front/back masks of count+2 steps (sampled above the per-tier cap); array_chunks N in {{1,2,3,4,5,8}} over u16/()/String; long slices (17..=100 elements) with sizes around 8/16/32 and len-1/len/len+1 under six masks", maxlen),
         "one evaluation = one next/next_back step of iter / iter_copied / windows / chunks / rchunks / chunks_exact / rchunks_exact / array_chunks or their rev() forms, compared with the std iterator of the same name: item by address range (length only for ZST), as_slice()/remainder() after every step, copy() independence, exhausted stays exhausted (2 extra steps); a panic inside a konst step is a mismatch; non-trivial = distinct (iterator,type,len,size,mask) with >= 2 items and a mask mixing front and back steps".into(),
     )
 }
